@@ -438,6 +438,17 @@ func c09Run(x *engine.X) {
 		} else {
 			mschema = parquet.SchemaOf(MRow{})
 		}
+		if len(rgs) >= 3 && x.Choose(2, "nest") == 1 {
+			// the first two inputs are merged first: an input of the merge is itself a merged row group
+			m0, err := parquet.MergeRowGroups(rgs[:2], mschema, parquet.SortingRowGroupConfig(parquet.SortingColumns(spec.columns()...)))
+			if err != nil {
+				x.Failf("merge-error", shape+";nested", "inner MergeRowGroups: %v", err)
+				return
+			}
+			rgs = append([]parquet.RowGroup{m0}, rgs[2:]...)
+			x.Descf("nested=(0,1)")
+			shape += ";nested"
+		}
 		merged, err := parquet.MergeRowGroups(rgs, mschema, parquet.SortingRowGroupConfig(parquet.SortingColumns(spec.columns()...), parquet.DropDuplicatedRows(dedupe)))
 		if err != nil {
 			x.Failf("merge-error", shape, "MergeRowGroups: %v", err)
@@ -559,7 +570,7 @@ func init() {
 	Register(&engine.Prop{
 		ID:    "C09",
 		Level: "exploration",
-		Rule: "k in 0..3 (4 thorough) sorted inputs, each given by per-key counts in {0,1,2} over 3 keys (+null for nullable keys), plus scenarios where one key of one input is a long run of {25,49,193,1100} (thorough: every threshold +-1) rows x 8 sort specs (asc/desc, second column, nullable key with nulls first/last) x 4 input kinds (sorted buffer, file with one page, file with small pages, first of 3 row groups) x 5 consumption paths (Rows, Rows+dedupe, WriteRowGroup, WriteRowGroup+dedupe, MergeRowReaders over chunked readers) x 6 read batch sizes; every row carries (input, seq); " +
+		Rule: "k in 0..3 (4 thorough) sorted inputs, each given by per-key counts in {0,1,2} over 3 keys (+null for nullable keys), plus scenarios where one key of one input is a long run of {25,49,193,1100} (thorough: every threshold +-1) rows x 8 sort specs (asc/desc, second column, nullable key with nulls first/last) x 4 input kinds (sorted buffer, file with one page, file with small pages, first of 3 row groups) x inputs merged flat or with the first two merged first (an input that is itself a merged row group) x 5 consumption paths (Rows, Rows+dedupe, WriteRowGroup, WriteRowGroup+dedupe, MergeRowReaders over chunked readers) x 6 read batch sizes; every row carries (input, seq); " +
 			"non-trivial = k>=2 and >=2 rows",
 		Assumptions: []string{"ties across inputs may be emitted in any order (only per-input order is required)"},
 		Bound:       func(tier string) int { return 0 },
